@@ -277,7 +277,10 @@ def check_pipe_chain(ctx, cls, lc, func, calls, stmts, region='parent'):
     # loop gracefully and reports success for a terminate that was answered True
     closers = [n for n in g.nodes if n.stmt is not None and n.part == 'eval' and any(last_attr(c) == 'close' and (receiver(c) or '') == f'self.{chan}.child_end' for c in n.calls())]
     if closers and terminate_waits_for_ack(ctx, cls, chan):
-        p2 = g.find_path(recv_nodes, lambda n: n in closers, edge_ok=edge_ok, node_ok=lambda n: n.id not in inj_ids)
+        # an injection call that itself raises found no thread to interrupt (the target has gone): closing on that exit acknowledges nothing wrongly
+        inj_eval = {n.id for n in g.nodes if n.stmt is not None and n.part != 'post' and any(c is inj for c in n.calls())}
+        p2 = g.find_path(recv_nodes, lambda n: n in closers, edge_ok=lambda e: edge_ok(e) and not (e.src.id in inj_eval and e.kind not in ('norm', 'true', 'false')),
+                         node_ok=lambda n: n.id not in inj_ids)
         ctx.check('R1', f'{cls.name}: the control thread closes its end of the control pipe (the acknowledgement terminate() waits for) only after the injection', p2 is None, cf.short,
                   'acknowledged-before-injection', f'{cf.short} can close self.{chan}.child_end - which terminate() takes as the acknowledgement before it releases the work loop - before '
                   'foreign_raise has made the exception pending: the release token can reach an idle persistent worker first, it ends gracefully and reports has_error False',
